@@ -63,14 +63,19 @@ Advance(tags) ==
   /\ dead' = dead \cup PropsOf(tags)
   /\ Flag(l, LiveTags(tags, dead))
 
+\* observations are kept inside the ranges the specification's arithmetic is written for (an observation
+\* outside them is flagged where it is made; it must not make later predicates unevaluable)
+SaneQ(q) == IF q = NaNKey \/ q < 0 THEN 0 ELSE IF q > Q THEN Q ELSE q
+SaneA(a) == IF a < 0 THEN 0 ELSE IF a >= M THEN M - 1 ELSE a
+
 \* observed phase / position / output become the specification's
 Observe ==
   /\ phase' = PhaseName(e.ph)
-  /\ acc' = e.a /\ lastAcc' = e.a
-  /\ val' = e.q
+  /\ acc' = SaneA(e.a) /\ lastAcc' = SaneA(e.a)
+  /\ val' = SaneQ(e.q)
   /\ UNCHANGED <<inc, rolled>>
 
-RangeTags == IF e.k = NaNKey \/ e.k < 0 \/ e.k > KeyOne THEN {<<"C01", "range">>} ELSE {}
+RangeTags == IF e.k = NaNKey \/ e.k < 0 \/ e.k > KeyOne \/ e.q # SaneQ(e.q) THEN {<<"C01", "range">>} ELSE {}
 
 \* ---- a logged tick --------------------------------------------------------------------------
 TickTags ==
@@ -81,7 +86,7 @@ TickTags ==
       d     == acc' - acc
       dS    == Abs(S - sAtTick)
   IN   (IF ~C02_order("tick") THEN {<<"C02", "phase-order">>} ELSE {})
-  \cup (IF acc' < 0 \/ acc' >= M THEN {<<"C02", "position-range">>} ELSE {})
+  \cup (IF e.a # SaneA(e.a) THEN {<<"C02", "position-range">>} ELSE {})
   \cup (IF phase \in Timed /\ same /\ (d < lo \/ d > hi) THEN {<<"C02", "increment">>} ELSE {})
   \* the phase is still running although its configured time has passed: late by more than the counter
   \* resolution (C02), never ending (C17), and the output is not where the curve is at that time (C01)
@@ -114,7 +119,7 @@ SkipTags ==
   LET p  == IF phase \in Timed THEN StepOf(phase) ELSE <<0, 0>>
       d  == acc' - acc
   IN   (IF phase' # phase THEN {<<"C02", "phase-order">>} ELSE {})
-  \cup (IF phase \in Timed /\ (d < Lower(p) * e.n \/ d > Upper(p) * e.n) THEN {<<"C02", "increment">>} ELSE {})
+  \cup (IF phase \in Timed /\ Upper(p) < M /\ (d < Lower(p) * e.n \/ d > Upper(p) * e.n) THEN {<<"C02", "increment">>} ELSE {})
   \cup (IF phase \in Timed /\ phase' = phase /\ d <= 0 THEN {<<"C17", "no-progress">>} ELSE {})
   \cup RangeTags
   \cup (IF cont /\ phase = "attack" /\ e.k < lastK THEN {<<"C01", "attack-not-monotone">>} ELSE {})
@@ -163,10 +168,11 @@ TSetTime ==
 TSetSustain ==
   /\ e.op = "si" /\ e.w = "s"
   /\ Observe
-  /\ S' = e.cq /\ Skey' = e.ck
+  /\ S' = SaneQ(e.cq) /\ Skey' = e.ck
   /\ UNCHANGED <<lvlOn, lvlOff, step, lastK, sAtTick, fresh>>
   /\ cont' = FALSE
-  /\ Advance(IF ~C02_order("set") \/ e.q # val THEN {<<"C02", "set-input-disturbs">>} ELSE {})
+  /\ Advance(   (IF ~C02_order("set") \/ e.q # val THEN {<<"C02", "set-input-disturbs">>} ELSE {})
+           \cup (IF e.cq # SaneQ(e.cq) THEN {<<"C20", "sustain-not-clamped">>, <<"C01", "range">>} ELSE {}))
 
 TNew ==
   /\ e.op = "new"
